@@ -303,7 +303,8 @@ fn deserialize<'a>(ty: &OwnedDataModelType, data: &'a [u8]) -> Result<(Value, &'
                 }
             }
         }
-        OwnedDataModelType::Schema => todo!(),
+        // schemas-within-schemas have no serde_json::Value form yet
+        OwnedDataModelType::Schema => Err(Error::ShouldSupportButDont),
     }
 }
 
